@@ -91,7 +91,10 @@ def _rewrite(t, mapping):
         return mapping[t]
     if t.op in ("const", "bytes"):
         return t
-    if t.op in ("param", "fresh", "phi", "undef", "ref", "deref", "okelse", "opaque"):
+    if t.op == "deref":
+        r = _rewrite(t.args[0], mapping)     # the pointee of something the callee also sees
+        return T.deref(r) if r is not None else None
+    if t.op in ("param", "fresh", "phi", "undef", "ref", "okelse", "opaque"):
         return None
     args = []
     for a in t.args:
